@@ -88,16 +88,18 @@ def pathLe (a b : Str × Lang) : Bool := !strLt b.1 a.1
 /-- `filesSorted.sort(...)` (stable merge sort) -/
 def sortFiles (l : List (Str × Lang)) : List (Str × Lang) := l.mergeSort pathLe
 
+/-- `if (endsWith(corrected_path, '/')) corrected_path.erase(corrected_path.end() - 1);` -/
+def correctedPath (path : Str) : Str := if path.getLast? == some '/' then path.dropLast else path
+
 /-- `FileLister::addFiles(files, path, extra, recursive = true, ignored)` started on an empty `files` list;
     `node = none`: `stat(path)` fails.  Result: error text and the list appended to `files`. -/
 def addFiles (ign : Str → Filemode → Bool) (acc : Str → Bool × Lang) (path : Str) (node : Option Tree) :
     String × List (Str × Lang) :=
   if path.isEmpty then ("no path specified", [])
   else
-    let corrected := if path.getLast? == some '/' then path.dropLast else path
     match node with
-    | none => ("", if ign corrected .regular then [] else [])
-    | some n => ("", sortFiles (collectPath ign acc corrected n))
+    | none => ("", [])
+    | some n => ("", sortFiles (collectPath ign acc (correctedPath path) n))
 
 /-! ## which files are selected -/
 
@@ -133,7 +135,7 @@ def nameOk (n : Str) : Bool := !n.isEmpty && !n.contains '/' && n != dot && n !=
 mutual
 def Tree.wf : Tree → Bool
   | .file _ => true
-  | .dir _ ch => wfL ch && ((ch.map Tree.name).eraseDups.length == ch.length)
+  | .dir _ ch => wfL ch && decide ((ch.map Tree.name).Nodup)
 def wfL : List Tree → Bool
   | [] => true
   | t :: r => nameOk t.name && t.wf && wfL r
